@@ -118,3 +118,10 @@ Theorem C11_timer_not_overtaken :
   forall k2, KernelTimer.ksteps k1 k2 -> Kernel.QInv k2 -> KernelTimer.Queued k2 e -> (Kernel.now k2 <= Kernel.now k + d)%Z.
 Proof. exact KernelTimer.timeout_not_overtaken. Qed.
 Print Assumptions C11_timer_not_overtaken.
+
+(* ... and the timer is not lost: until the event has been processed its entry is in the queue *)
+Theorem C11_timer_not_lost :
+  forall k d k1 e, KernelTimer.QRefs k -> Kernel.timeout k d = (k1, e) ->
+  forall k2, KernelTimer.ksteps k1 k2 -> KernelTimer.Queued k2 e \/ Kernel.e_proc (Kernel.get_ev k2 e) = true.
+Proof. exact KernelTimer.timeout_not_lost. Qed.
+Print Assumptions C11_timer_not_lost.
